@@ -99,6 +99,23 @@ context-expression patterns, e.g. `warnings.catch_warnings()`, which only saves 
 has no `as` target is translated as its body (added for the integral defuzzifiers; calls inside the body that only
 configure that context, such as `warnings.simplefilter("ignore")`, are named by `skip_stmts`).
 
+State at a raise (`raise_state` of a profile; run-time primitives in `Base/PyRaise.lean`).  `Py.M S` drops the record
+of the locals when an exception is raised.  For a function whose *effects before the raise* matter (a loader that must
+leave its object unloaded when it fails; a loop that catches the exceptions of its callees and goes on) the profile sets
+`"raise_state": True`: the function and its loops have the type `Except (Py.Err × S) S` (`Py.R S`) - an exception carries
+the record as it is at the raise.  `raise X` is `.error (.X, σ)`; an expression that can raise is evaluated by
+`Py.inState σ e` (expressions have no effect on the record); fuel exhaustion is `.error (.fuel, σ)`.  A statement
+external whose third component is `"R"` gives a term of type `Py.R S` itself (a call of a method that mutates its object
+and then raises: the object as the callee left it goes into the record; `Py.R.map` embeds an outcome on the object);
+`False` is a `Py.M S` as before (lifted by `Py.inState σ`).  In this mode `try: <statements> except C [as x]: <handler>`
+is translated for any statement list without `return` / `break` / `continue`: the handler runs on the record *at the
+raise* (this is what makes the general form sound; without `raise_state` only the single pure-state assignment above is
+accepted).  `C` is `Exception` (every Python exception: `Py.Err.isPython`, i.e. not the translator's own `.fuel` /
+`.alias`), `SyntaxError`, `ValueError` or `RuntimeError` (the classes that map to one `Py.Err` each); `x` must be a
+declared local of type `Py.Err` and receives the exception.  Not combined with `alias_last` / `self_call`.
+
+`bool(e)` is the truth value of `e` (as in a condition).
+
 Anything outside the subset raises `Untranslatable` - the tie is then reported as broken (never silently skipped).
 """
 from __future__ import annotations
@@ -265,6 +282,20 @@ class Fn:
             self.locals[x] = "Py.Alias"
             self.check_alias(x, lst)
         self.check_none_init()
+        self.rs = bool(profile.get("raise_state"))
+        if self.rs and (profile.get("alias_last") or profile.get("self_call")):
+            raise Untranslatable("raise_state cannot be combined with alias_last / self_call")
+
+    # ---------------------------------------------------------------- state at a raise (`raise_state`)
+    def lift(self, term):
+        """an expression-level `Py.M T` used by a statement: with `raise_state` its exception carries the record"""
+        return f"Py.inState σ {paren(term)}" if self.rs else term
+
+    def mty(self):
+        return f"Except (Py.Err × {self.name}.S) {self.name}.S" if self.rs else f"Py.M {self.name}.S"
+
+    def err(self, kind):
+        return f".error (.{kind}, σ)" if self.rs else f".error .{kind}"
 
     # ---------------------------------------------------------------- aliases of the last element of a list
     def check_alias(self, x, lst):
@@ -487,6 +518,8 @@ class Fn:
                 self.used_ext.append(desc)
             if all(a.pure for a in args):
                 return tmpl.format(*[paren(a.term) for a in args]), pure
+            if pure == "R":
+                raise Untranslatable(f"statement external of type Py.R with an argument that can raise: {ast.unparse(stmt)[:50]}")
             names = [f"a{i}" for i in range(len(args))]
             body = tmpl.format(*names)
             body = body if not pure else f".ok {paren(body)}"
@@ -660,6 +693,8 @@ class Fn:
             f = node.func
             if isinstance(f, ast.Name) and f.id == "len" and len(node.args) == 1:
                 return self.bind1(self.ce(node.args[0]), lambda x: f"({x}).length", "Nat")
+            if isinstance(f, ast.Name) and f.id == "bool" and len(node.args) == 1 and not node.keywords:
+                return self.truthy(self.ce(node.args[0]))
             if isinstance(f, ast.Attribute) and f.attr == "pop" and not node.args:
                 base = self.ce(f.value)
                 raise Untranslatable("pop() as an expression must be the whole right-hand side of an assignment or an argument of append")
@@ -806,7 +841,7 @@ class Fn:
             raise Untranslatable(f"'{name}' has type {want}, assigned {e.ty}")
         if e.pure:
             return f"{k} {{ σ with {name} := {e.term}{self.detach(name)} }}"
-        return f"{e.term} >>= fun v => {k} {{ σ with {name} := v{self.detach(name)} }}"
+        return f"{self.lift(e.term)} >>= fun v => {k} {{ σ with {name} := v{self.detach(name)} }}"
 
     @staticmethod
     def app(k):
@@ -829,16 +864,20 @@ class Fn:
             if not rest:
                 return first_with_k(k)
             kn = f"k{self.fresh()}"
-            return f"let {kn} : {self.name}.S → Py.M {self.name}.S := fun σ =>\n{ind(after())}\n{first_with_k(kn)}"
+            return f"let {kn} : {self.name}.S → {self.mty()} := fun σ =>\n{ind(after())}\n{first_with_k(kn)}"
 
         if isinstance(s, ast.Expr) and isinstance(s.value, ast.Constant):
             return after()  # docstring
         hit = self.try_stmt_external(s)
         if hit is not None:
             term, pure = hit
+            if pure == "R":
+                if not self.rs:
+                    raise Untranslatable("a statement external of type Py.R needs `raise_state`")
+                return f"{term} >>= fun σ =>\n{after()}"
             if pure:
                 return f"let σ := {term}\n{after()}"
-            return f"{term} >>= fun σ =>\n{after()}"
+            return f"{self.lift(term)} >>= fun σ =>\n{after()}"
         if isinstance(s, (ast.Import, ast.ImportFrom, ast.Pass)):
             return after()
         if isinstance(s, ast.Expr) and isinstance(s.value, ast.Call) and any(match_pattern(p, s.value, {}) for p in self.skips):
@@ -949,7 +988,7 @@ class Fn:
                     e = self.ce(val)
                     if e.pure:
                         return f"let σ := {{ σ with {loc} := {{ σ.{loc} with {t.attr} := {wrap(paren(e.term))} }} }}\n{after()}"
-                    return f"{e.term} >>= fun v =>\nlet σ := {{ σ with {loc} := {{ σ.{loc} with {t.attr} := {wrap('v')} }} }}\n{after()}"
+                    return f"{self.lift(e.term)} >>= fun v =>\nlet σ := {{ σ with {loc} := {{ σ.{loc} with {t.attr} := {wrap('v')} }} }}\n{after()}"
             raise Untranslatable(f"assignment target {ast.unparse(t)}")
         if isinstance(s, ast.AugAssign) and isinstance(s.target, ast.Subscript):
             # l[i] += e : load l[i], evaluate e, combine, store (the index expression has no effect but exceptions)
@@ -963,7 +1002,7 @@ class Fn:
             nm = exc.func.id if isinstance(exc, ast.Call) and isinstance(exc.func, ast.Name) else (exc.id if isinstance(exc, ast.Name) else None)
             if nm not in ERR:
                 raise Untranslatable(f"raise of {ast.unparse(exc)[:40]}")
-            return f".error .{ERR[nm]}"
+            return self.err(ERR[nm])
         if isinstance(s, ast.Continue):
             if loopk is None:
                 raise Untranslatable("continue outside a loop")
@@ -990,7 +1029,7 @@ class Fn:
                 b = self.cs(list(s.orelse) + list(rb), kn, loopk, brk)
                 if c.pure:
                     return f"if {c.term} then\n{ind(a)}\nelse\n{ind(b)}"
-                return f"{c.term} >>= fun c =>\nif c then\n{ind(a)}\nelse\n{ind(b)}"
+                return f"{self.lift(c.term)} >>= fun c =>\nif c then\n{ind(a)}\nelse\n{ind(b)}"
             if rest and diverts(s.body):
                 return mk(k, (), rest)
             if rest and s.orelse and diverts(s.orelse):
@@ -1028,16 +1067,16 @@ class Fn:
                 e = self.ce(arg)
                 if e.pure:
                     return f"let σ := {{ σ with {tgt} := {app(paren(e.term))}{self.detach(tgt)} }}\n{after()}"
-                return seq(lambda kn: f"{e.term} >>= fun v => {kn} {{ σ with {tgt} := {app('v')}{self.detach(tgt)} }}")
+                return seq(lambda kn: f"{self.lift(e.term)} >>= fun v => {kn} {{ σ with {tgt} := {app('v')}{self.detach(tgt)} }}")
             if isinstance(f, ast.Attribute) and f.attr == "pop" and not call.args and self.try_external(call) is None:
                 return self.pop_stmt(f.value, lambda x: "", rest, k, loopk, brk)
             ext = self.try_external(call)
             if ext is not None and ext.ty == "Unit":
                 # a call for its effect that the profile maps to a check: M Unit
-                return seq(lambda kn: f"{ext.m()} >>= fun _ => {kn} σ")
+                return seq(lambda kn: f"{self.lift(ext.m())} >>= fun _ => {kn} σ")
             if ext is not None and ext.ty.startswith("S:"):
                 # an effectful external: template is a state transformer  S -> M S
-                return seq(lambda kn: f"{ext.m()} >>= fun σ => {kn} σ") if not ext.pure else f"let σ := {ext.term}\n{after()}"
+                return seq(lambda kn: f"{self.lift(ext.m())} >>= fun σ => {kn} σ") if not ext.pure else f"let σ := {ext.term}\n{after()}"
             raise Untranslatable(f"call statement {ast.unparse(call)[:60]}")
         if (isinstance(s, ast.With) and len(s.items) == 1 and s.items[0].optional_vars is None
                 and any(match_pattern(ast.parse(p, mode="eval").body, s.items[0].context_expr, {}) for p in self.p.get("plain_with", []))):
@@ -1061,6 +1100,27 @@ class Fn:
             if self.p["part"] == "enter":
                 return self.app(k)
             raise Untranslatable("part 'exit' is translated from the finally block")
+        if isinstance(s, ast.Try) and self.rs:
+            # the general form: the exception carries the record at the raise, the handler runs on it
+            if s.orelse or s.finalbody or len(s.handlers) != 1:
+                raise Untranslatable("try statement shape")
+            h = s.handlers[0]
+            nm = h.type.id if isinstance(h.type, ast.Name) else None
+            if nm not in ("Exception", "SyntaxError", "ValueError", "RuntimeError"):
+                raise Untranslatable(f"except clause: {ast.unparse(h.type) if h.type else 'bare'}")
+            if any(isinstance(n, (ast.Return, ast.Break, ast.Continue)) for b in s.body for n in ast.walk(b)):
+                raise Untranslatable("return / break / continue inside a try block")
+            if h.name and self.locals.get(h.name) != "Py.Err":
+                raise Untranslatable(f"`except … as {h.name}`: '{h.name}' must be a declared local of type Py.Err")
+
+            def mk(kn):
+                body = self.cs(s.body, "Except.ok")
+                bind = f"let σ := {{ σ with {h.name} := err }}\n" if h.name else ""
+                hc = bind + self.cs(h.body, kn, loopk, brk)
+                caught = "Py.Err.isPython err" if nm == "Exception" else f"err == .{ERR[nm]}"
+                return (f"match (\n{ind(body)}) with\n| .ok σ =>\n{ind(self.app(kn))}\n| .error (err, σ) =>\n  if {caught} then\n{ind(hc, 4)}\n"
+                        f"  else .error (err, σ)")
+            return seq(mk)
         if isinstance(s, ast.Try):
             if s.orelse or s.finalbody or len(s.handlers) != 1 or len(s.body) != 1:
                 raise Untranslatable("try statement shape")
@@ -1125,12 +1185,12 @@ class Fn:
                 wb = f"{{ σ with {arr} := σ.{arr} ++ [σ.{s.target.id}] }}"
             kloop = f"{ln} rest" if wb is None else f"(fun σ => {ln} rest {wb})"
             body = self.cs(s.body, kloop, kloop, "Except.ok")
-            self.aux.append(f"def {ln} : List {paren(ety)} → {self.name}.S → Py.M {self.name}.S\n  | [], σ => .ok σ\n  | {xv} :: rest, σ =>\n{ind(tgt_assign, 4)}\n{ind(body, 4)}")
+            self.aux.append(f"def {ln} : List {paren(ety)} → {self.name}.S → {self.mty()}\n  | [], σ => .ok σ\n  | {xv} :: rest, σ =>\n{ind(tgt_assign, 4)}\n{ind(body, 4)}")
             if arr is not None:
                 return f"{ln} σ.{arr} {{ σ with {arr} := [] }} >>= fun σ =>\n{after()}"
             if it.pure:
                 return f"{ln} {paren(it.term)} σ >>= fun σ =>\n{after()}"
-            return f"{it.term} >>= fun l => {ln} l σ >>= fun σ =>\n{after()}"
+            return f"{self.lift(it.term)} >>= fun l => {ln} l σ >>= fun σ =>\n{after()}"
         if isinstance(s, ast.While):
             if s.orelse:
                 raise Untranslatable("while-else")
@@ -1144,8 +1204,9 @@ class Fn:
             if c.pure:
                 step = f"if {c.term} then\n{ind(body)}\nelse .ok σ"
             else:
-                step = f"{c.term} >>= fun c =>\nif c then\n{ind(body)}\nelse .ok σ"
-            self.aux.append(f"def {ln} : Nat → {self.name}.S → Py.M {self.name}.S\n  | 0, _ => .error .fuel\n  | fuel + 1, σ =>\n{ind(step, 4)}")
+                step = f"{self.lift(c.term)} >>= fun c =>\nif c then\n{ind(body)}\nelse .ok σ"
+            fuel0 = "| 0, σ => .error (.fuel, σ)" if self.rs else "| 0, _ => .error .fuel"
+            self.aux.append(f"def {ln} : Nat → {self.name}.S → {self.mty()}\n  {fuel0}\n  | fuel + 1, σ =>\n{ind(step, 4)}")
             return f"{ln} ({fuel}) σ >>= fun σ =>\n{after()}"
         raise Untranslatable(f"statement {type(s).__name__}: {ast.unparse(s)[:60]}")
 
@@ -1166,7 +1227,7 @@ class Fn:
             raise Untranslatable(f"'{nm}' has elements of type {ety}, assigned {e.ty}")
         prim = "Py.setNat" if i.ty == "Nat" else "Py.setInt"
         upd = self.partial2(e, i, lambda a, b: f"({prim} σ.{nm} {b} {a})", self.locals[nm])
-        return f"{upd.term} >>= fun v =>\nlet σ := {{ σ with {nm} := v }}\n{after()}"
+        return f"{self.lift(upd.term)} >>= fun v =>\nlet σ := {{ σ with {nm} := v }}\n{after()}"
 
     def self_call(self, target, argnodes, after):
         """`target = F(args)`: run the function itself with one unit of fuel less, take its value, copy back the
@@ -1255,7 +1316,7 @@ class Fn:
         if "_" not in e.ty and e.ty.replace("Stack ", "List ") != want.replace("Stack ", "List ") and not (want.startswith("Option ") and want == f"Option {paren(e.ty)}"):
             raise Untranslatable(f"'{name}' has type {want}, assigned {e.ty}")
         v = "(some v)" if want.startswith("Option ") and not e.ty.startswith("Option") else "v"
-        return f"{e.term} >>= fun v =>\nlet σ := {{ σ with {name} := {v}{self.detach(name)} }}\n{self.cs(rest, k, loopk, brk)}"
+        return f"{self.lift(e.term)} >>= fun v =>\nlet σ := {{ σ with {name} := {v}{self.detach(name)} }}\n{self.cs(rest, k, loopk, brk)}"
 
     def pop_stmt(self, target, use, rest, k, loopk, brk):
         """`target.pop()` (last element of a list / top of a stack): removes it, then `use(E(value))` continues with `kk`"""
@@ -1267,7 +1328,7 @@ class Fn:
         cont = self.cs(rest, k, loopk, brk)
         inner = use(E("p.1", elem_type(tty)))
         inner = inner + "\n" if inner else ""
-        return f"{prim} σ.{nm} >>= fun p =>\nlet σ := {{ σ with {nm} := p.2{self.detach(nm)} }}\n{inner}{cont}"
+        return f"{self.lift(f'{prim} σ.{nm}')} >>= fun p =>\nlet σ := {{ σ with {nm} := p.2{self.detach(nm)} }}\n{inner}{cont}"
 
     _n = 0
 
@@ -1333,7 +1394,7 @@ class Fn:
                    f"  | fuel + 1, {', '.join(n for n, _ in self.params)}, σ =>\n{ind(body, 4)}\n\n")
             main = f"def {self.name}.run {params} (σ : {self.name}.S) : Py.M {self.name}.S :=\n  {self.name}.rec ({self.p['rec_fuel']}) {pnames} σ\n"
             return text + rec + main
-        main = f"def {self.name}.run {params} (σ : {self.name}.S) : Py.M {self.name}.S :=\n{ind(body)}\n"
+        main = f"def {self.name}.run {params} (σ : {self.name}.S) : {self.mty()} :=\n{ind(body)}\n"
         if params:
             # thread the parameters to the loop functions
             for i in range(1, self.nloop + 1):
